@@ -30,12 +30,12 @@ CHECKS = {
                 note='partial claim: SHA-256, base64, serde_json are ideal primitives; redact abstract (C04); native replays recompute with sha2 / base64 / an independent canonical-JSON writer at the size boundary',
                 ref='DESIGN.md §4 C05'),
     'C06': dict(engine='mirsym', technique=MIRSYM,
-                text='the three hash-order-sensitive kernels of resolve() executed from MIR under every iteration order of every HashMap / HashSet they walk (symbolic order index per iteration): lexicographical_topological_sort (every DAG over <= 3 nodes, symbolic power levels / timestamps; z3 decides the emitted order is the specified function of graph and keys), separate (1-2 state sets, 3 thorough; unconflicted / conflicted split as maps) and get_auth_chain_diff (1-3 chains; ids missing from some chain, as a set), plus get_power_level_for_sender on the symbolic world of C08: same level whether the shared creator cache is empty or was filled by an event visited earlier; hence independent of hasher seeds, threads and repetition; native replays call each 16 times with fresh RandomState seeds',
+                text='the three hash-order-sensitive kernels of resolve() executed from MIR under every iteration order of every HashMap / HashSet they walk (symbolic order index per iteration): lexicographical_topological_sort (every DAG over <= 3 nodes, symbolic power levels / timestamps; z3 decides the emitted order is the specified function of graph and keys), separate (1-2 state sets, 3 thorough; unconflicted / conflicted split as maps) and get_auth_chain_diff (1-3 chains; ids missing from some chain, as a set), plus get_power_level_for_sender on the symbolic world of C08: same level whether the shared creator cache is empty or was filled by an event visited earlier; and mainline_sort (see C07); hence independent of hasher seeds, threads and repetition; native replays call each 16 times with fresh RandomState seeds',
                 note='partial claim (DESIGN §4 C06): resolve() as a whole (composition of the kernels, iterative auth checks, mainline ordering), permutations of the state-set / auth-chain arguments are NOT decided; BinaryHeap / HashMap / HashSet are library models',
                 ref='DESIGN.md §4 C06'),
     'C07': dict(engine='mirsym', technique=MIRSYM,
-                text='the exposed topological sort clause only: lexicographical_topological_sort executed from MIR on every DAG over <= 3 nodes (4 thorough) with every identifier assignment, symbolic power level and timestamp per node, all hash iteration orders; z3 decides every node once, dependencies first, and among ready nodes greatest power level, then earliest timestamp, then smallest event id',
-                note='partial claim (DESIGN §4 C07): equality of resolve() with state resolution v2 on room histories (conflict separation, auth difference, iterative auth checks, mainline ordering) is outside what the engines can encode',
+                text='the two ordering kernels: (1) lexicographical_topological_sort executed from MIR on every DAG over <= 3 nodes (sampled 4-node DAGs thorough) with every identifier assignment, symbolic power level and timestamp per node, all hash iteration orders: every node once, dependencies first, among ready nodes greatest power level, then earliest timestamp, then smallest event id; (2) mainline_sort on a power-level history with a side branch and three events citing any of its events or none (125 combinations, symbolic timestamps, all hash orders): ordered by the mainline position of the closest power-level ancestor (older first), then timestamp, then event id',
+                note='partial claim (DESIGN §4 C07): equality of resolve() with state resolution v2 on room histories (composition of the kernels, iterative auth checks against the partial state, power-event graph construction) is outside what the engines can encode; slice::sort_by_key and BinaryHeap are library models',
                 ref='DESIGN.md §4 C07'),
     'C08': dict(engine='mirsym', technique=MIRSYM,
                 text='auth_check and everything above the serde seam executed from the MIR of ruma-state-res on a symbolic world (room version 1..11, create / power-levels / join-rules / member state by role, incoming member / message / state / aliases / redaction / third-party-invite / power-levels event with absent / well-typed / malformed fields); z3 decides accepted<=>the authorization rules of the specification (spec/auth_rules.py) and panic-freedom per family and version; counterexamples are concretised to PDUs and replayed through ruma_state_res::event_auth::auth_check',
